@@ -27,11 +27,11 @@ pub fn configs_c09(tier: Tier) -> Vec<Box<dyn Config>> {
     let p = vec![Probe::Iterators];
     let mut v = Vec::new();
     if sse2 {
-        v.push(map_cfg(Plan::Zero, if q { 8 } else { 15 }, p.clone(), tier, "map-iter"));
+        v.push(map_cfg(Plan::Zero, if q { 13 } else { 16 }, p.clone(), tier, "map-iter"));
         v.push(map_cfg(Plan::Seq, if q { 4 } else { 6 }, p.clone(), tier, "map-iter"));
         v.push(map_cfg(Plan::Last, if q { 5 } else { 7 }, p.clone(), tier, "map-iter"));
     } else {
-        v.push(map_cfg(Plan::Zero, if q { 8 } else { 12 }, p.clone(), tier, "map-iter"));
+        v.push(map_cfg(Plan::Zero, if q { 12 } else { 14 }, p.clone(), tier, "map-iter"));
         v.push(map_cfg(Plan::Seq, if q { 4 } else { 6 }, p.clone(), tier, "map-iter"));
         v.push(map_cfg(Plan::Cluster(2), if q { 6 } else { 9 }, p.clone(), tier, "map-iter"));
     }
@@ -41,13 +41,13 @@ pub fn configs_c09(tier: Tier) -> Vec<Box<dyn Config>> {
 pub fn configs_c10(tier: Tier) -> Vec<Box<dyn Config>> {
     let sse2 = super::width() == 16;
     let q = tier == Tier::Quick;
-    let p = vec![Probe::Removal { max_subset_len: if q { 6 } else { 10 } }];
+    let p = vec![Probe::Removal { max_subset_len: if q { 8 } else { 11 } }];
     let mut v = Vec::new();
     if sse2 {
-        v.push(map_cfg(Plan::Zero, if q { 7 } else { 12 }, p.clone(), tier, "map-removal"));
+        v.push(map_cfg(Plan::Zero, if q { 11 } else { 14 }, p.clone(), tier, "map-removal"));
         v.push(map_cfg(Plan::Seq, if q { 4 } else { 6 }, p.clone(), tier, "map-removal"));
     } else {
-        v.push(map_cfg(Plan::Zero, if q { 8 } else { 11 }, p.clone(), tier, "map-removal"));
+        v.push(map_cfg(Plan::Zero, if q { 11 } else { 13 }, p.clone(), tier, "map-removal"));
         v.push(map_cfg(Plan::Cluster(2), if q { 6 } else { 8 }, p.clone(), tier, "map-removal"));
     }
     v
